@@ -250,6 +250,13 @@ class Scenario:
                 vsas = [rc.grouped(260, [rc.u32(266, 10415), rc.u32(259, a)]) for a in napps_acct] + \
                        [rc.grouped(260, [rc.u32(266, 10415), rc.u32(258, a)]) for a in napps_auth]
                 return env.cer(host=s.host, acct=(), auth=(), hbh=hbh, e2e=e2e, extra=vsas)
+            if var == "vsa_acct":   # only the accounting applications, only inside Vendor-Specific-Application-Id
+                vsas = [rc.grouped(260, [rc.u32(266, 10415), rc.u32(259, a)]) for a in napps_acct]
+                return env.cer(host=s.host, acct=(), auth=(), hbh=hbh, e2e=e2e, extra=vsas)
+            if var == "vsa_cross":  # the node's auth ids offered as vendor-specific *acct* ids and vice versa: nothing shared
+                vsas = [rc.grouped(260, [rc.u32(266, 10415), rc.u32(259, a)]) for a in napps_auth] + \
+                       [rc.grouped(260, [rc.u32(266, 10415), rc.u32(258, a)]) for a in napps_acct]
+                return env.cer(host=s.host, acct=(), auth=(), hbh=hbh, e2e=e2e, extra=vsas)
             if var == "nocommon":
                 return env.cer(host=s.host, acct=(99,), auth=(98,), hbh=hbh, e2e=e2e)
             if var == "crosskind":      # the node's auth ids offered as acct ids and vice versa: nothing is shared
